@@ -2890,3 +2890,21 @@ mod tests {
         assert!((-r * GF::w64be(0, 0, 0, 3)).equals(GF::ONE) != 0);
     }
 }
+
+// ========================================================================
+// Verification hooks (read-only accessors to private items); compiled only
+// with --cfg pornin_crrl_verif.
+
+#[cfg(pornin_crrl_verif)]
+impl<const M0: u64, const M1: u64, const M2: u64, const M3: u64> ModInt256<M0, M1, M2, M3> {
+    /// Internal (Montgomery) limbs.
+    pub fn verif_limbs(&self) -> [u64; 4] { self.0 }
+    /// Build from internal limbs; caller must ensure value < modulus.
+    pub fn verif_from_raw(l: [u64; 4]) -> Self { Self(l) }
+    pub fn verif_montyred(self) -> Self { let mut r = self; r.set_montyred(); r }
+    pub fn verif_montylin(a: &Self, b: &Self, f: u64, g: u64) -> Self { Self::montylin(a, b, f, g) }
+    pub fn verif_lindiv31abs(a: &Self, b: &Self, f: u64, g: u64) -> (Self, u64) { Self::lindiv31abs(a, b, f, g) }
+    pub fn verif_norm_nonmonty_signed(self) -> [u64; 4] { self.norm_nonmonty_signed() }
+    pub fn verif_smul_trunc(self, f: &[u64; 2]) -> [u64; 3] { self.smul_trunc(f) }
+    pub fn verif_split_nonmonty_generic_vartime(self) -> (i128, i128) { self.split_nonmonty_generic_vartime() }
+}
